@@ -198,11 +198,11 @@ class ECollection(PyEcoreValue):
                  ._set(new_value, update_opposite=False)
 
     def remove(self, value, update_opposite=True):
+        super().remove(value)
         if self.is_ref:
             self._update_container(None, previous_value=value)
             if update_opposite:
                 self._update_opposite(value, self.owner, remove=True)
-        super().remove(value)
         self.owner.notify(Notification(old=value,
                                        feature=self.feature,
                                        kind=Kind.REMOVE))
